@@ -283,6 +283,37 @@ Definition wfb (g : graph) : bool := forallb (fun n => linkb g (n_cause n) && li
 Definition json_opaqueb (g : graph) : bool :=
   forallb (fun n => negb (n_exc_rt_json n) && negb (n_wrap_rt_json n) && forallb (fun m => negb (m_ok_json m)) (n_mro n)) g.
 
+(* ---------------------------------------------------------------- equality tests used by the correspondence *)
+Definition aform_eqb (x y : aform) : bool :=
+  match x, y with AEq, AEq | AChanged, AChanged | ARepr, ARepr | AStr, AStr | AUnrep, AUnrep => true | _, _ => false end.
+Fixpoint aforms_eqb (x y : list aform) : bool :=
+  match x, y with [], [] => true | a :: x', b :: y' => aform_eqb a b && aforms_eqb x' y' | _, _ => false end.
+Definition largs_eqb (x y : largs) : bool :=
+  match x, y with
+  | LArgs a, LArgs b => aforms_eqb a b
+  | LRewritten, LRewritten | LText, LText | LMismatch, LMismatch => true
+  | _, _ => false
+  end.
+Definition lkind_eqb (x y : lkind) : bool :=
+  match x, y with
+  | KOrig, KOrig | KOther, KOther | KSynth, KSynth | KSynthSer, KSynthSer | KGeneric, KGeneric | KWrap, KWrap => true
+  | KBase i, KBase j => i =? j
+  | _, _ => false
+  end.
+Fixpoint ltree_eqb (x y : ltree) : bool :=
+  match x, y with
+  | LNone, LNone => true
+  | LNode i k n a c t s, LNode i' k' n' a' c' t' s' =>
+      (i =? i') && lkind_eqb k k' && Bool.eqb n n' && largs_eqb a a' && ltree_eqb c c' && ltree_eqb t t' && Bool.eqb s s'
+  | _, _ => false
+  end.
+Definition outcome_eqb (x y : outcome) : bool :=
+  match x, y with
+  | OFuel, OFuel | OStoreFail, OStoreFail | OSecurity, OSecurity | ONotExc, ONotExc => true
+  | OLoaded a, OLoaded b => ltree_eqb a b
+  | _, _ => false
+  end.
+
 (* ---------------------------------------------------------------- the statement, on a loaded tree *)
 (* chain clause (JSON): t is the unfolding of the graph from id along every duplicate-free path of cause /
    unsuppressed-context links, with the same suppress flags; a link to a node on the path is cut. *)
@@ -340,10 +371,6 @@ Definition faithful (e : enc) (n : node) : bool :=
 Definition all_eq (e : enc) (n : node) : bool :=
   forallb (fun a => a_rt (coder_of e) a && a_eq e a) (n_args n).
 
-Definition aform_eqb (x y : aform) : bool :=
-  match x, y with AEq, AEq | AChanged, AChanged | ARepr, ARepr | AStr, AStr | AUnrep, AUnrep => true | _, _ => false end.
-Fixpoint aforms_eqb (x y : list aform) : bool :=
-  match x, y with [], [] => true | a :: x', b :: y' => aform_eqb a b && aforms_eqb x' y' | _, _ => false end.
 Definition largs_eqb_forms (a : largs) (l : list aform) : bool :=
   match a with LArgs l' => aforms_eqb l' l | _ => false end.
 
@@ -374,11 +401,19 @@ Fixpoint class_json_okb (e : enc) (g : graph) (t : ltree) : bool :=
 (* pickle, the root only (links are not kept): original class when Python's own pickling works, else the
    nearest base that can be rebuilt and pickled, else the wrapper naming the class with ensured args *)
 Definition class_node_pickle (n : node) (k : lkind) (named : bool) (a : largs) : bool :=
-  if n_exc_rt_pickle n then is_orig k && named
+  if n_exc_rt_pickle n then is_orig k && named && largs_eqb a (n_native n)
   else match first_ok CPickle (n_mro n) 0 with
-       | Some 0 => is_orig k && named
-       | Some i => match k with KBase j => j =? i | _ => false end
-       | None => match k with KWrap => named && largs_eqb_forms a (map (arg_form EPickle) (n_args n)) | _ => false end
+       | Some i =>
+         match nth_error (n_mro n) i with
+         | Some m => largs_eqb a (m_loaded m) &&
+                     (if i =? 0 then is_orig k && named else match k with KBase j => j =? i | _ => false end)
+         | None => false
+         end
+       | None => n_wrap_rt_pickle n &&
+                 match k with
+                 | KWrap => named && largs_eqb_forms a (map (arg_form EPickle) (n_args n))
+                 | _ => false
+                 end
        end.
 
 Definition class_pickle_okb (g : graph) (t : ltree) : bool :=
@@ -387,6 +422,46 @@ Definition class_pickle_okb (g : graph) (t : ltree) : bool :=
     match nth_error g id with Some n => class_node_pickle n k named a | None => false end
   | _ => false
   end.
+
+(* ---------------------------------------------------------------- the statement, as propositions *)
+Definition is_json (e : enc) : Prop := e = EText \/ e = EDict.
+
+Definition class_spec_json (e : enc) (n : node) (k : lkind) (named : bool) (a : largs) : Prop :=
+  let forms := map (arg_form e) (n_args n) in
+  (faithful e n = true -> k = KOrig /\ a = LArgs forms) /\
+  (faithful e n = false ->
+     ((k = KSynth \/ k = KSynthSer) /\ named = true /\ a = LArgs forms) \/
+     (k = KGeneric /\ named = true /\ a = LText) \/
+     (k = KOrig /\ named = true /\ a = LRewritten) \/
+     k = KOther).
+
+Fixpoint class_json_ok (e : enc) (g : graph) (t : ltree) : Prop :=
+  match t with
+  | LNone => True
+  | LNode id k named a c x _ =>
+    (exists n, nth_error g id = Some n /\ class_spec_json e n k named a) /\ class_json_ok e g c /\ class_json_ok e g x
+  end.
+
+(* the pickle stand-in cascade for the root: Python's own pickling, else the NEAREST base that can be rebuilt and
+   pickled, else the wrapper naming the class with ensured arguments *)
+Definition class_spec_pickle (n : node) (k : lkind) (named : bool) (a : largs) : Prop :=
+  (n_exc_rt_pickle n = true -> k = KOrig /\ named = true /\ a = n_native n) /\
+  (n_exc_rt_pickle n = false -> forall i, first_ok CPickle (n_mro n) 0 = Some i ->
+      exists m, nth_error (n_mro n) i = Some m /\ m_ok_pickle m = true /\
+        (forall j' m', j' < i -> nth_error (n_mro n) j' = Some m' -> m_ok_pickle m' = false) /\
+        a = m_loaded m /\ (i = 0 -> k = KOrig /\ named = true) /\ (i <> 0 -> k = KBase i)) /\
+  (n_exc_rt_pickle n = false -> first_ok CPickle (n_mro n) 0 = None ->
+      (forall m, In m (n_mro n) -> m_ok_pickle m = false) /\ n_wrap_rt_pickle n = true /\
+      k = KWrap /\ named = true /\ a = LArgs (map (arg_form EPickle) (n_args n))).
+
+(* the two regions in which a store or a load can fail *)
+Definition encodable (e : enc) (g : graph) : Prop :=
+  forall n a, In n g -> In a (n_args n) -> a_rt_json a = true -> a_enc e a = true.
+Definition no_shadow (g : graph) : Prop :=
+  forall n, In n g -> n_has_module n = true -> n_resolve n <> RNonExc.
+
+Definition wrappable (g : graph) : Prop := forall n, In n g -> n_wrap_rt_pickle n = true.
+
 
 (* Boolean form of the statement for one observed outcome (store/load failures are judged by the harness'
    direct oracle; here: a loaded tree must satisfy the class and chain clauses) *)
@@ -399,33 +474,6 @@ Definition C19_check (e : enc) (g : graph) (root : nat) (o : outcome) : bool :=
     end
   | OFuel => false
   | _ => true
-  end.
-
-(* ---------------------------------------------------------------- equality tests used by the correspondence *)
-Definition largs_eqb (x y : largs) : bool :=
-  match x, y with
-  | LArgs a, LArgs b => aforms_eqb a b
-  | LRewritten, LRewritten | LText, LText | LMismatch, LMismatch => true
-  | _, _ => false
-  end.
-Definition lkind_eqb (x y : lkind) : bool :=
-  match x, y with
-  | KOrig, KOrig | KOther, KOther | KSynth, KSynth | KSynthSer, KSynthSer | KGeneric, KGeneric | KWrap, KWrap => true
-  | KBase i, KBase j => i =? j
-  | _, _ => false
-  end.
-Fixpoint ltree_eqb (x y : ltree) : bool :=
-  match x, y with
-  | LNone, LNone => true
-  | LNode i k n a c t s, LNode i' k' n' a' c' t' s' =>
-      (i =? i') && lkind_eqb k k' && Bool.eqb n n' && largs_eqb a a' && ltree_eqb c c' && ltree_eqb t t' && Bool.eqb s s'
-  | _, _ => false
-  end.
-Definition outcome_eqb (x y : outcome) : bool :=
-  match x, y with
-  | OFuel, OFuel | OStoreFail, OStoreFail | OSecurity, OSecurity | ONotExc, ONotExc => true
-  | OLoaded a, OLoaded b => ltree_eqb a b
-  | _, _ => false
   end.
 
 (* one correspondence case: the measured graph and what the three real round trips produced *)
